@@ -57,7 +57,7 @@ def search(S):
         S.check(label + ".exp", "exp_zero", {"algebra": z.tolist()}, bool(np.array_equal(M0, np.eye(M0.shape[0])) and np.allclose(E.D(X0.param), E.D(grp.identity().param), atol=0)), None, M0.tolist(), "exp(0) is not exactly the identity")
     # direct sums
     G = L.groups()
-    for name in ("DPa", "DPb", "DPc", "DPd"):
+    for name in ("DPa", "DPb", "DPc", "DPd", "DPe", "DPf"):
         g = G[name]
         for k in range(max(4, n // 4)):
             v = rng.normal(size=g.algebra.n_param)
